@@ -241,4 +241,31 @@ theorem monitor_accepts_resolve (m m' : MState) (client : String) (fate : Fate) 
       · left; exact ⟨a, ha, hac⟩
       · right; exact hsec
 
+/-- C04 rule 5 (recovery half): an accepted CheckSecondaryLocks request of a non-GC client comes after the ttl that client's
+    latest status check of the transaction reported has elapsed on a clock the oracle has issued (or that ttl was 0) -/
+theorem monitor_accepts_secCheck (m m' : MState) (client : String) (S : Nat)
+    (h : Monitor.step m (.secCheck client S) = .ok m') :
+    isGC client = true ∨
+      ∀ e, (m.get S client).statusTTLs.find? (·.1 == client) = some e → e.2 = 0 ∨ physical S + e.2 ≤ physical m.maxTSO := by
+  have hall := ((monitor_accepts_iff _ _ _).mp h).1
+  simp only [checksOf, List.mem_cons, List.mem_nil_iff, or_false, forall_eq] at hall
+  by_cases hg : isGC client = true
+  · exact Or.inl hg
+  · right
+    intro e he
+    rw [he] at hall
+    simp only [Bool.or_eq_true, hg, beq_iff_eq, decide_eq_true_eq] at hall
+    rcases hall with hf | hr
+    · cases hf
+    · exact hr
+
+/-- C04 rule 8 for pessimistic lock requests: the primary an accepted request names is one of its keys or a key of an
+    earlier lock request of the transaction that was (or may have been) executed without a key error -/
+theorem monitor_accepts_plock (m m' : MState) (client : String) (fate : Fate) (S : Nat) (p : Bytes) (keys : List Bytes) (ok : Bool)
+    (h : Monitor.step m (.plock client fate S p keys ok) = .ok m') :
+    p ∈ keys ∨ p ∈ (m.get S client).plockedKeys := by
+  have hall := ((monitor_accepts_iff _ _ _).mp h).1
+  simp only [checksOf, List.mem_cons, List.mem_nil_iff, or_false, forall_eq] at hall
+  simpa using hall
+
 end CGV.Perc
